@@ -504,6 +504,14 @@ class HistMs(Hist):
                     n = rng.choice([2, 3, 5])
                     ks = w.get_keys(number_of_keys=n, change=change)
                     self.record('get.%s.%d' % (c, n), ks, 'get_keys(%d, change=%d)' % (n, change))
+                elif r < 0.82 or step == 1:
+                    # a key asked for by its place on the chain ([change, index]), as cosigners do when they compare addresses
+                    idx = rng.choice([0, 1, 2, 3, 6])
+                    self.ctx.count('ms-key_for_path')
+                    k = w.key_for_path([change, idx], cosigner_id=self.cos)
+                    self.record('at.%s.%d' % (c, idx), [k], 'key_for_path([%d, %d], cosigner_id=%d)' % (change, idx, self.cos))
+                    if k.change != change:
+                        self.problems.append(('path', self.rep(real_op='key_for_path([%d, %d])' % (change, idx), observed='change %s at %s' % (k.change, k.path), expected=change)))
                 elif r < 0.9:
                     cand = [k for k in w.keys(depth=w.key_depth) if not k.used and k.path[2:] in self.modelid]
                     if cand:
